@@ -1,8 +1,12 @@
 #!/bin/sh
-# re-runs every stored seeded change against the current checks: scratch worktree of /repo under /tmp per seed (removed afterwards),
+# re-runs stored seeded changes against the current checks: scratch worktree of /repo under /tmp per seed (removed afterwards),
 # patch applied there, check pointed at it with VERIF_REPO.  /repo itself is never modified.
+# usage: rerun_seeds.sh [round letters, default "a b c d e f g"]   (e.g. "g f" = only the two latest rounds, latest first)
 cd /verif
-for d in seeded/C*; do
+rounds=${1:-"a b c d e f g"}
+for r in $rounds; do
+for d in seeded/C*-$r; do
+  [ -d "$d" ] || continue
   sid=$(basename $d); id=${sid%%-*}
   wt=/tmp/wt_re_$sid
   git -C /repo worktree add -q $wt HEAD 2>/dev/null
@@ -14,4 +18,5 @@ for d in seeded/C*; do
     echo "$sid PATCH-DOES-NOT-APPLY"
   fi
   git -C /repo worktree remove --force $wt
+done
 done
